@@ -776,7 +776,7 @@ class Schema(BaseField):
         if not self._is_feature_enabled(config):
             return []
 
-        ignore_types = (IncludeFieldMixin, VirtualFieldMixin, InstanceMethodFieldMixin)
+        ignore_types = (VirtualFieldMixin, InstanceMethodFieldMixin)
         errors = []
 
         for field in self._fields.values():
